@@ -19,7 +19,7 @@ TRUSTED = ["Model/Heap.v (registration of mesh edges / cells on their vertices) 
 ASSUMPTIONS = ["clauses (3)-(5) (same object, own id, no repeated vertex, consecutive vertices joined by an edge) are evaluated on the "
                "implementation objects by impl.consistency_errors"]
 TESTED_NOT_PROVED = ["consistency after each parser, join_two_vertices and Frame is evaluated by the oracle on every generated input; for generate_mesh without merges "
-                     "clauses (3)-(5) are proved on Model/Resample.v (C09_resample_*; clause 5 under premises evaluated on every mesh C11 resamples) and re-checked on the objects"]
+                     "clauses (3)-(5) are proved on Model/Resample.v (C09_resample_*; clause 5 under premises evaluated on every mesh C11 resamples) and re-checked on the objects; for the dump parser, that kept edges join kept vertices and cell cycles name kept vertices is proved on Model/SEParse.v (C09_parsed_dump_references_exist)"]
 IMPORTS = "From Forsys Require Import Model.CaseUtil Model.PyList Model.Interfaces Model.Resample Model.Heap.\n"
 WORKDIR = os.path.join(C.WORK, "c09")
 
